@@ -285,11 +285,20 @@ def check_C07(c):
             continue
         c.replay(name, cases, dtypes=dts, pals=pals, rotate=3 if q else 0,
                  extra=["-ops", "all", "-entries", "func,method"] + (["-oprotate", "3", "-palrotate", "1"] if q else []))
+    # every (operator, form, mode, element type) CELL of the generated kernels, without rotation, on small structures: plain
+    # contiguous operands take the non-iterator kernels, an inner-slice operand the iterator kernels (one specialisation each per
+    # operator x operand order x mode x element type; a swapped or copy-pasted call in one cell is invisible to any sampled rotation)
+    for kinds, name, dts in ((["Arith"], "cells-arith", "numeric"), (["Unary"], "cells-unary", "numeric")):
+        k = elem_consts(q, kinds, laya=("C", "Col"), layb=("C",), modes=("safe", "unsafe", "reuse", "incr"), layd=("C",), mismatch=False,
+                        MinRank=1, MaxRank=2, MaxDim=2 if q else 3, HiRank=3)
+        cases = c.tlc("MC_elem", name, k, ELEM_INV)
+        c.replay(name, cases, dtypes=dts, pals="ident", extra=["-ops", "all"])
     c.rep.rule = ("TLC enumerates, for arithmetic, comparison and unary operations, the option modes {safe, unsafe, reuse, incr, reuse "
                   "aliasing the first / second operand} x operand layouts x destination layouts {contiguous, contiguous window view, inner "
                   "slice view (thorough: lazily transposed)}; the specification fixes which tensor is returned and which single tensor "
                   "changes (TLC invariant OperandsIntact on the model); the replayer executes every structure with every operator and "
-                  "element type and compares EVERY live tensor and every caller backing afterwards, plus the identity of the returned tensor")
+                  "element type and compares EVERY live tensor and every caller backing afterwards, plus the identity of the returned tensor; jobs cells-*: "
+                  "every operator x form x mode x numeric element type on small contiguous and inner-slice operands WITHOUT rotation")
     c.rep.assumptions = ["an aliasing reuse, and a reuse/incr into a view or lazily transposed destination, may be refused",
                          "a reuse destination of a different shape but equal size is reshaped by the library (documented); not generated"]
 
